@@ -10,6 +10,9 @@ import (
 	"strconv"
 	"strings"
 	"time"
+
+	"github.com/crillab/gophersat/maxsat"
+	"github.com/crillab/gophersat/solver"
 )
 
 // CliCase: a file handed to the gophersat executable with some flags (C19).
@@ -135,6 +138,10 @@ func init() {
 		ID: "C19",
 		Rule: "files of the four kinds written to disk and given to the gophersat executable built from /repo (no build tag): DIMACS (uniform, messy, or MUS-style formulas over 1..9 variables, free layout) with no flag, -count, -certified, -mus, -cp, -cp -certified (optionally -verbose); OPB with optional objective (non-negative coefficients) with no flag or -cp; WCNF; formulas in the .bf syntax; plus missing files, unknown suffixes and malformed contents. stdout is parsed (s / v / o lines, count, certificate, MUS) and judged by the verified oracles (model evaluation, exhaustive verdict / optimum / count, RUP refutation, isMUSB, truth table); exit status and absence of answer lines are checked for bad files. Non-trivial = well-formed file with at least 2 clauses / constraints; distinct = distinct (file, flags).",
 		Gens:    []Gen{{Name: "cli", Weight: 1, Make: func(r *Rng, tier string) interface{} { return genCliCase(r, tier) }}},
+		Extra: []ExtraGen{{Gen{Name: "wcnf-many-steps", Make: func(r *Rng, tier string) interface{} {
+			w := genMaxSatManySteps(r, tier)
+			return CliCase{Ext: "wcnf", Wcnf: &w, Text: w.Text, Flags: []string{}}
+		}}, 250, 6000}},
 		Run:     runCliCase,
 		Cases:   defCases(1200, 30000),
 		Timeout: defDur(20*time.Second, 60*time.Second),
@@ -431,6 +438,32 @@ func runCliCase(o *Oracle, d json.RawMessage, oc *Outcome) {
 			n = c.Wcnf.NbVars
 			sat, best = o.MaxSat(n, hard, soft)
 			costOf = func(m []bool) int { return o.Violated(soft, m) }
+		}
+		// the library calls the tool makes for this file, made again in-process with the optimisation
+		// loop watched (append-mirror, constraints-stable); the optimum must be the one printed
+		if !isFlag("-cp") {
+			var inner *solver.Solver
+			var run func() solver.Result
+			if c.Ext == "opb" {
+				if pb, err := solver.ParseOPB(strings.NewReader(c.Text)); err == nil {
+					inner = solver.New(pb)
+					run = func() solver.Result { return inner.Optimal(nil, nil) }
+				}
+			} else if itf, err := maxsat.ParseWCNF(strings.NewReader(c.Text)); err == nil {
+				if ms, ok := itf.(*maxsat.Solver); ok {
+					inner = ms.VerifSolver()
+					run = func() solver.Result { return ms.Optimal(nil, nil) }
+				}
+			}
+			if inner != nil {
+				stop := mirrorAppends(o, oc, inner, entry+" (same calls in-process)")
+				res := run()
+				stop()
+				oc.Tag("library-twin")
+				if res.Status == solver.Sat && len(oLines) > 0 && oLines[len(oLines)-1] != res.Weight {
+					oc.Fail("spec", "cli-library-agree", entry, "the tool's last o line is %d, the same library calls in-process end with cost %d", oLines[len(oLines)-1], res.Weight)
+				}
+			}
 		}
 		if len(sLines) != 1 {
 			oc.Fail("spec", "stdout-conventions", entry, "%d 's' lines in %q", len(sLines), out)
